@@ -1,7 +1,8 @@
 (* C18 — arbitrary rotations (FieldRotator).  ONLY statements, each closed by [exact].
    [rnd] is the representation hook of the model (see model/Rotator.v); theorems that speak about
    values are stated for every hook with rnd x == x (identity, Qred). *)
-From DF Require Import Prelude Rotator C18_machine C18_geom C18_field.
+From DF Require Import Prelude FieldK NDArray Rotate90.
+From DF Require Import Rotator C18_machine C18_geom C18_field C18_bracket C18_quarter C18_nadm C18_c12 C18_gap.
 Open Scope Q_scope.
 
 (* clear_rotation restores the original field (and the identity rotation) after any history *)
@@ -147,3 +148,177 @@ Theorem C18_rotated_field_scalar : forall rnd, (forall x, rnd x == x) -> forall 
   interp_at rnd (fst (fst g)) (snd (fst g)) (snd g) (f_n orig) (f_val orig) (back_pos rnd orig R n' i j k) 0%nat.
 Proof. exact rotated_val_scalar. Qed.
 Print Assumptions C18_rotated_field_scalar.
+
+(* ================= phase 2 ================= *)
+
+(* the interval search on the rotator's grid (guard points at pmin - 1e-9 cell and pmax + 1e-9 cell around
+   the cell centres): a point at least one cell inside the region is bracketed by two neighbouring cell
+   CENTRES, the weight is the normalised distance from the lower one, the padded index is the cell index *)
+Theorem C18_locate_brackets : forall rnd, (forall x, rnd x == x) -> forall lo hi ctr n x,
+  lo < hi -> (1 <= n)%nat -> one_cell_inside lo hi n (x + ctr) ->
+  exists a t, brackets lo hi n a (x + ctr) t /\
+    fst (locate rnd (grid1 rnd lo hi ctr n) x) = S a /\ snd (locate rnd (grid1 rnd lo hi ctr n) x) == t /\
+    pad1 n (S a) = a /\ pad1 n (S (S a)) = S a /\ inb1 (grid1 rnd lo hi ctr n) x = true.
+Proof. exact one_cell_axis. Qed.
+Print Assumptions C18_locate_brackets.
+
+Example C18_one_cell_inside_nonvacuous : 0 < 4 /\ (1 <= 4)%nat /\ one_cell_inside 0 4 4 (0 + 2).
+Proof. unfold one_cell_inside. cbn. repeat split; (discriminate || lia). Qed.
+
+(* the interpolator at such a point IS the linear interpolation between the eight neighbouring cell centres
+   (no hypothesis on the surrounding values any more) *)
+Theorem C18_interior_is_trilinear : forall rnd, (forall x, rnd x == x) -> forall orig (A : arr) p, wf_fld orig ->
+  let lo := f_pmin orig in let hi := f_pmax orig in let n := f_n orig in let ctr := centre orig in
+  let g := grids rnd orig in
+  one_cell_inside (vx lo) (vx hi) (n0 n) (vx p + vx ctr) ->
+  one_cell_inside (vy lo) (vy hi) (n1 n) (vy p + vy ctr) ->
+  one_cell_inside (vz lo) (vz hi) (n2 n) (vz p + vz ctr) ->
+  exists a b d tx ty tz,
+    brackets (vx lo) (vx hi) (n0 n) a (vx p + vx ctr) tx /\
+    brackets (vy lo) (vy hi) (n1 n) b (vy p + vy ctr) ty /\
+    brackets (vz lo) (vz hi) (n2 n) d (vz p + vz ctr) tz /\
+    forall e, interp_at rnd (fst (fst g)) (snd (fst g)) (snd g) n A p e == trilin A a b d tx ty tz e.
+Proof. exact interp_at_interior. Qed.
+Print Assumptions C18_interior_is_trilinear.
+
+Example C18_wf_fld_nonvacuous : wf_fld (Fld (V3 0 0 0) (V3 4 2 1) (N3 4 2 1) (fun _ _ _ _ => 0)).
+Proof. unfold wf_fld. cbn. repeat split; (reflexivity || lia). Qed.
+
+(* C18 in the property's words: a target cell whose back-rotated centre lies at least one cell inside the
+   original region carries R^ applied to the linear interpolation of the original (scalar: the interpolant) *)
+Theorem C18_interior_value_property : forall rnd, (forall x, rnd x == x) -> forall perm orig R n' i j k, wf_fld orig ->
+  let lo := f_pmin orig in let hi := f_pmax orig in let n := f_n orig in let ctr := centre orig in
+  let p := back_pos rnd orig R n' i j k in
+  one_cell_inside (vx lo) (vx hi) (n0 n) (vx p + vx ctr) ->
+  one_cell_inside (vy lo) (vy hi) (n1 n) (vy p + vy ctr) ->
+  one_cell_inside (vz lo) (vz hi) (n2 n) (vz p + vz ctr) ->
+  exists a b d tx ty tz,
+    brackets (vx lo) (vx hi) (n0 n) a (vx p + vx ctr) tx /\
+    brackets (vy lo) (vy hi) (n1 n) b (vy p + vy ctr) ty /\
+    brackets (vz lo) (vz hi) (n2 n) d (vz p + vz ctr) tz /\
+    (forall c, (c < 3)%nat ->
+       rotated_val rnd 3 perm orig R n' i j k c == Rotator.rot_comp rnd R perm (trilin (f_val orig) a b d tx ty tz) c) /\
+    rotated_val rnd 1 perm orig R n' i j k 0%nat == trilin (f_val orig) a b d tx ty tz 0%nat.
+Proof. exact rotated_cell_interior. Qed.
+Print Assumptions C18_interior_value_property.
+
+(* linear scalar fields are reproduced exactly: the rotated field carries the affine function evaluated at the
+   back-rotated position P = centre + R^T (y - centre) *)
+Theorem C18_linear_scalar_reproduced : forall rnd, (forall x, rnd x == x) -> forall perm orig R n' i j k al be ga de,
+  wf_fld orig ->
+  let lo := f_pmin orig in let hi := f_pmax orig in let n := f_n orig in let ctr := centre orig in
+  let p := back_pos rnd orig R n' i j k in
+  one_cell_inside (vx lo) (vx hi) (n0 n) (vx p + vx ctr) ->
+  one_cell_inside (vy lo) (vy hi) (n1 n) (vy p + vy ctr) ->
+  one_cell_inside (vz lo) (vz hi) (n2 n) (vz p + vz ctr) ->
+  (forall i j k, (i < n0 n)%nat -> (j < n1 n)%nat -> (k < n2 n)%nat ->
+      f_val orig i j k 0%nat == al * cpt (vx lo) (vx hi) (n0 n) i + be * cpt (vy lo) (vy hi) (n1 n) j +
+                                ga * cpt (vz lo) (vz hi) (n2 n) k + de) ->
+  rotated_val rnd 1 perm orig R n' i j k 0%nat ==
+  al * (vx p + vx ctr) + be * (vy p + vy ctr) + ga * (vz p + vz ctr) + de.
+Proof. exact linear_scalar_reproduced. Qed.
+Print Assumptions C18_linear_scalar_reproduced.
+
+(* a target centre that back-rotates exactly onto the centre of source cell (a,b,d) carries R^ of that cell *)
+Theorem C18_node_value : forall rnd, (forall x, rnd x == x) -> forall perm orig R n' i j k a b d, wf_fld orig ->
+  let lo := f_pmin orig in let hi := f_pmax orig in let n := f_n orig in let ctr := centre orig in
+  let p := back_pos rnd orig R n' i j k in
+  (a < n0 n)%nat -> (b < n1 n)%nat -> (d < n2 n)%nat ->
+  vx p == cpt (vx lo) (vx hi) (n0 n) a - vx ctr ->
+  vy p == cpt (vy lo) (vy hi) (n1 n) b - vy ctr ->
+  vz p == cpt (vz lo) (vz hi) (n2 n) d - vz ctr ->
+  (forall c, (c < 3)%nat -> rotated_val rnd 3 perm orig R n' i j k c == Rotator.rot_comp rnd R perm (f_val orig a b d) c) /\
+  rotated_val rnd 1 perm orig R n' i j k 0%nat == f_val orig a b d 0%nat.
+Proof. exact rotated_cell_on_node. Qed.
+Print Assumptions C18_node_value.
+
+(* ---- quarter turn x -> y (about z), the exact signed permutation matrix, vs the lattice rotation of C12 ---- *)
+(* every target centre (i,j,k) of the mesh with swapped n back-rotates onto source centre (j, n1-1-i, k) *)
+Theorem C18_quarter_turn_positions : forall rnd, (forall x, rnd x == x) -> forall orig i j k, wf_fld orig ->
+  let n := f_n orig in let lo := f_pmin orig in let hi := f_pmax orig in let ctr := centre orig in
+  (i < n1 n)%nat -> (j < n0 n)%nat ->
+  let p := back_pos rnd orig Rz1 (N3 (n1 n) (n0 n) (n2 n)) i j k in
+  vx p == cpt (vx lo) (vx hi) (n0 n) j - vx ctr /\
+  vy p == cpt (vy lo) (vy hi) (n1 n) (n1 n - 1 - i) - vy ctr /\
+  vz p == cpt (vz lo) (vz hi) (n2 n) k - vz ctr.
+Proof. exact quarter_z1_pos. Qed.
+Print Assumptions C18_quarter_turn_positions.
+
+(* values = Field.rotate90's numpy.rot90 index map + 2x2 rotation of the two mapped components (Rotate90.v) *)
+Theorem C18_quarter_turn : forall rnd, (forall x, rnd x == x) -> forall perm orig i j k c, wf_fld orig -> is_perm3 perm ->
+  let n := f_n orig in
+  (i < n1 n)%nat -> (j < n0 n)%nat -> (k < n2 n)%nat -> (c < 3)%nat ->
+  rotated_val rnd 3 perm orig Rz1 (N3 (n1 n) (n0 n) (n2 n)) i j k c ==
+  Rotate90.rot_comp QOps (fst (kturn QOps 1)) (snd (kturn QOps 1)) (nth 0 perm 0%nat) (nth 1 perm 0%nat)
+    (rot90 [n0 n; n1 n; n2 n; 3%nat] 0 1 1 (arr_idx (f_val orig))) [i; j; k; c].
+Proof. exact quarter_turn_z1_vector. Qed.
+Print Assumptions C18_quarter_turn.
+
+Example C18_quarter_turn_nonvacuous : is_perm3 [2; 0; 1]%nat.
+Proof. cbn. tauto. Qed.
+
+Theorem C18_quarter_turn_scalar : forall rnd, (forall x, rnd x == x) -> forall perm orig i j k, wf_fld orig ->
+  let n := f_n orig in
+  (i < n1 n)%nat -> (j < n0 n)%nat -> (k < n2 n)%nat ->
+  rotated_val rnd 1 perm orig Rz1 (N3 (n1 n) (n0 n) (n2 n)) i j k 0%nat ==
+  rot90 [n0 n; n1 n; n2 n; 1%nat] 0 1 1 (arr_idx (f_val orig)) [i; j; k; 0%nat].
+Proof. exact quarter_turn_z1_scalar. Qed.
+Print Assumptions C18_quarter_turn_scalar.
+
+(* region = Region.rotate90: min / max of the two corners rotated about the centre *)
+Theorem C18_quarter_turn_region : forall rnd, (forall x, rnd x == x) -> forall orig, wf_fld orig ->
+  let ctr := centre orig in
+  let cl := [vx ctr; vy ctr; vz ctr] in
+  let P1 := rot_pt (fst (qturn 1)) (snd (qturn 1)) 0 1 cl [vx (f_pmin orig); vy (f_pmin orig); vz (f_pmin orig)] in
+  let P2 := rot_pt (fst (qturn 1)) (snd (qturn 1)) 0 1 cl [vx (f_pmax orig); vy (f_pmax orig); vz (f_pmax orig)] in
+  let lo' := new_pmin rnd Rz1 orig in let hi' := new_pmax rnd Rz1 orig in
+  (vx lo' == Qmin (nth 0 P1 0) (nth 0 P2 0) /\ vy lo' == Qmin (nth 1 P1 0) (nth 1 P2 0) /\ vz lo' == Qmin (nth 2 P1 0) (nth 2 P2 0)) /\
+  (vx hi' == Qmax (nth 0 P1 0) (nth 0 P2 0) /\ vy hi' == Qmax (nth 1 P1 0) (nth 1 P2 0) /\ vz hi' == Qmax (nth 2 P1 0) (nth 2 P2 0)).
+Proof. exact quarter_turn_z1_region. Qed.
+Print Assumptions C18_quarter_turn_region.
+
+(* cubic cells: the swapped n of Mesh.rotate90 is an admissible default resolution (exactly: slack 0) *)
+Theorem C18_quarter_turn_n : forall rnd, (forall x, rnd x == x) -> forall orig h, wf_fld orig -> 0 < h ->
+  vx (cellv orig) == h -> vy (cellv orig) == h -> vz (cellv orig) == h ->
+  let n := f_n orig in
+  n_adm rnd 0 Rz1 orig (N3 (n1 n) (n0 n) (n2 n)) = true /\
+  rot_n 1 0 1 [Z.of_nat (n0 n); Z.of_nat (n1 n); Z.of_nat (n2 n)] =
+    [Z.of_nat (n1 n); Z.of_nat (n0 n); Z.of_nat (n2 n)].
+Proof. exact quarter_turn_z1_n. Qed.
+Print Assumptions C18_quarter_turn_n.
+
+(* ---- the default resolution ---- *)
+(* whenever the cube root a of dV/vol is rational the checked relation IS the code's formula:
+   n is a nearest integer of E / (L a) (up to the slack) *)
+Theorem C18_n_adm_is_round : forall slack a dV vol E L n,
+  0 <= slack -> 0 < a -> cube a * vol == dV -> 0 < vol -> 0 < L -> 0 <= E -> 0 <= qnat n - (1 # 2) - slack ->
+  (n_adm1 slack dV vol E L n = true <->
+   (1 <= n)%nat /\ qnat n - (1 # 2) - slack <= E / (L * a) /\ E / (L * a) <= qnat n + (1 # 2) + slack).
+Proof. exact n_adm1_iff. Qed.
+Print Assumptions C18_n_adm_is_round.
+
+Example C18_n_adm_is_round_nonvacuous :
+  0 <= 0 /\ 0 < 1 /\ cube 1 * 1 == 1 /\ 0 < 1 /\ 0 <= 3 /\ 0 <= qnat 3 - (1 # 2) - 0 /\ n_adm1 0 1 1 3 1 3 = true.
+Proof. cbn. repeat split; (discriminate || reflexivity). Qed.
+
+(* irrational cube root: the admitted n is consistent with EVERY rational bracket a1 <= cbrt(dV/vol) <= a2 *)
+Theorem C18_n_adm_brackets : forall dV vol E L n,
+  0 < vol -> 0 < L -> 0 <= E -> 0 <= dV -> n_adm1 0 dV vol E L n = true ->
+  (forall a1, 0 < a1 -> cube a1 * vol <= dV -> (qnat n - (1 # 2)) * L * a1 <= E) /\
+  (forall a2, 0 < a2 -> dV <= cube a2 * vol -> E <= (qnat n + (1 # 2)) * L * a2).
+Proof. exact n_adm1_brackets. Qed.
+Print Assumptions C18_n_adm_brackets.
+
+(* ---- the evaluation hook of the checker ---- *)
+(* one interpolation step under a hook with relative error eta: weight off by delta, inputs off by eps,
+   data bounded by V  =>  result off by at most (1+eta)(eps + 2 delta V) + eta V *)
+Theorem C18_rounding_step : forall (rnd' : Q -> Q) eta, 0 <= eta -> (forall y, Qabs (rnd' y - y) <= eta * Qabs y) ->
+  forall t t' a a' b b' delta eps V,
+  0 <= t' -> t' <= 1 -> Qabs (t' - t) <= delta -> Qabs (a' - a) <= eps -> Qabs (b' - b) <= eps ->
+  Qabs a <= V -> Qabs b <= V -> 0 <= t -> t <= 1 ->
+  Qabs (lerp rnd' t' a' b' - ((1 - t) * a + t * b)) <= (1 + eta) * (eps + delta * (2 * V)) + eta * V.
+Proof. exact lerp_gap. Qed.
+Print Assumptions C18_rounding_step.
+
+Example C18_rounding_step_nonvacuous : forall y, Qabs ((fun x => x) y - y) <= 0 * Qabs y.
+Proof. intro y. cbv beta. setoid_replace (y - y) with 0 by ring. cbn. rewrite Qmult_0_l. apply Qle_refl. Qed.
